@@ -150,7 +150,12 @@ class G:
                 entry = {"t": "meth", "x": C, "m": "_builder"}
             elif not (kind == "delete" and self.delete_scheduled):
                 mode = "main"
-        return {"cls": cls, "kind": kind, "mode": mode, "entry": entry, "actors": actors, "tail": self.tail}
+        prog = {"cls": cls, "kind": kind, "mode": mode, "entry": entry, "actors": actors, "tail": self.tail}
+        if kind in ("insert", "update", "delete") and mode == "main" and self.p(0.08):
+            # the target table of the statement carries an alias (the same Table object a caller uses in its SELECTs)
+            prog = _alias_target(prog)
+            prog["aliased_target"] = True
+        return prog
 
     def join_call(self, base_tbl, jt, how=None, variety=False):
         item = dict(jt)
@@ -547,6 +552,17 @@ class G:
         return [{"group": "if_exists", "calls": [{"m": "if_exists", "a": []}]}] if self.p(0.7) else []
 
 
+def _alias_target(x):
+    """The program with every un-aliased occurrence of table "a" (the statement's target) given the alias "a1"."""
+    if isinstance(x, dict):
+        if x.get("t") == "table" and x.get("name") == TA["name"] and not x.get("alias") and not x.get("schema"):
+            return dict(x, alias="a1")
+        return {k: _alias_target(v) for k, v in x.items()}
+    if isinstance(x, list):
+        return [_alias_target(v) for v in x]
+    return x
+
+
 # ------------------------------------------------------------------ execution
 def apply_call(env, head, call):
     if "fin" in call:
@@ -940,7 +956,8 @@ def riders(prog, merge, prefixes, L, stats):
             stats["sqlite_prepared"] += 1
             err = sqlite_parse_error(sql)
             if err:
-                bad.append(("sqlite-parse", f"{err}: {sql[:120]}"))
+                bad.append(("sqlite-parse[aliased-target]" if prog.get("aliased_target") else "sqlite-parse",
+                            f"{err}: {sql[:120]}"))
     return bad
 
 
